@@ -1730,6 +1730,13 @@ class Interp:
                 except UnicodeDecodeError as ex:
                     raise PyRaise(self.mk_exc("UnicodeDecodeError", str(ex)), self.site())
         if isinstance(recv, SymInt):
+            if name == "bit_length" and not args:
+                # number of bits of |x|: how many powers of two are <= |x| (exact for |x| < 2**48; larger values do not occur)
+                a = sym.Ite(recv < 0, 0 - recv, recv)
+                n = 0
+                for k in range(48):
+                    n = n + sym.Ite(a >= (1 << k), 1, 0)
+                return n
             raise EngineError("int method %s on symbolic int" % name)
         return self.native(getattr(recv, name), *args, **kwargs)
 
